@@ -211,11 +211,36 @@ impl World {
         };
         // ---- run the real handler
         let mut fx = fx0.clone();
+        // packaging of the tick arrays (C10 at instruction level, swap_v2 only): 0 = the three arrays in order;
+        // 1 = the same three in reverse order; 2 = the three static slots hold far-away arrays of this pool (empty
+        // system accounts at their addresses) and the needed ones arrive as SUPPLEMENTAL tick arrays, shuffled
+        let pk: u8 = if ver == 2 { t.get(15).and_then(|x| x.parse().ok()).unwrap_or(0) } else { 0 };
         let (metas, data): (Vec<Meta>, Vec<u8>) = if ver == 2 {
-            (
-                fx.swap_v2_metas(dir),
-                ::whirlpool::instruction::SwapV2 { amount, other_amount_threshold: thr, sqrt_price_limit: limit, amount_specified_is_input: ein, a_to_b: dir, remaining_accounts_info: None }.data(),
-            )
+            let mut m = fx.swap_v2_metas(dir);
+            let mut rai = None;
+            let slots: Vec<usize> = {
+                let ta = fx.swap_arrays(dir);
+                (0..m.len()).filter(|i| ta.contains(&m[*i].key)).collect()
+            };
+            if slots.len() == 3 && pk == 1 {
+                let (k0, k2) = (m[slots[0]].key, m[slots[2]].key);
+                m[slots[0]].key = k2;
+                m[slots[2]].key = k0;
+            } else if slots.len() == 3 && pk == 2 {
+                use ::whirlpool::util::{AccountsType, RemainingAccountsInfo, RemainingAccountsSlice};
+                let real = [m[slots[1]].key, m[slots[2]].key, m[slots[0]].key];
+                let tia = 88 * fx.ts as i32;
+                for (j, sl) in slots.iter().enumerate() {
+                    // valid start indexes far from the price, in the wrong direction: never needed
+                    let far = if dir { 20 + j as i32 } else { -20 - j as i32 } * tia + fx.wp().tick_current_index.div_euclid(tia) * tia;
+                    m[*sl].key = crate::fixture::tick_array_pda(&fx.pool, far);
+                }
+                for kx in real {
+                    m.push(Meta { key: kx, signer: false, writable: true });
+                }
+                rai = Some(RemainingAccountsInfo { slices: vec![RemainingAccountsSlice { accounts_type: AccountsType::SupplementalTickArrays, length: 3 }] });
+            }
+            (m, ::whirlpool::instruction::SwapV2 { amount, other_amount_threshold: thr, sqrt_price_limit: limit, amount_specified_is_input: ein, a_to_b: dir, remaining_accounts_info: rai }.data())
         } else {
             (fx.swap_v1_metas(dir), ::whirlpool::instruction::Swap { amount, other_amount_threshold: thr, sqrt_price_limit: limit, amount_specified_is_input: ein, a_to_b: dir }.data())
         };
